@@ -23,6 +23,8 @@ def run(ctx):
     Q.q7_do_level(ctx)
     Q.q8_add(ctx)
     Q.q11_distinct_containers(ctx)
+    Q.q12_working_label_carried(ctx)
+    ctx.floor("Q12", 1)
     ctx.floor("Q11", 1)
     for rule, n in (("Q1", 2), ("Q2", 2), ("Q3", 2), ("Q4", 6), ("Q5", 6), ("Q6", 3), ("Q7", 2), ("Q8", 1), ("Q9", 2), ("Q10", 2)):
         ctx.floor(rule, n)
